@@ -116,6 +116,8 @@ def jobs(tier):
             'in_range_lin(*l0) && lin_nonzero(*l0) && in_range_lin(*l1) && lin_nonzero(*l1)', 'wf_lin(*l0) && wf_lin(*l1)',
             'sp_D_shape_q(self->_dists) && sp_D_within_or_inf(self->_dists, XT_DQ) && sp_x_consistent(self->_dists)', 'sp_lin_rec(100, *l0) && sp_lin_rec(130, *l1) && sp_q_rec(self->_dists)']
     BE = 'sp_bounds_of_diff(self->_dists, *l0, *l1)'
+    if tier == 'quick':   # quick: one term on each side (x vs y, x vs constant); thorough: l0 with two terms as well
+        pree = pree + ['l0->vars.n <= 1']
     ce = Contract(requires=[fin(r) for r in pree],
                   ensures=[('only_invalid_argument', '__exc == 0 || __exc == EXC_invalid_argument'),
                            ('serves_every_integer_difference_form', '!%s.ok || __exc == 0' % BE),
@@ -135,7 +137,7 @@ def jobs(tier):
   } catch (const std::invalid_argument &e) { if (want.ok) ok = false; observed = "equates(" + show(l0) + ", " + show(l1) + ") throws invalid_argument"; }
   required = "true exactly when 0 lies in the interval of l0 - l1 derived from the variable-level distances";
 '''},
-                   bounded='l0 <= 2 terms, l1 <= 1 term over %d time points; |coefficients| < 2^%d, |x| <= 4, %s' % (d['XT_NTP'], W, QB)))
+                   bounded='l0 <= 2 terms (quick: 1), l1 <= 1 term over %d time points; |coefficients| < 2^%d, |x| <= 4, %s' % (d['XT_NTP'], W, QB)))
     # ---- new_distance(from, to, dist), the body behind the contract the relations assume: the TRUE / FALSE shortcuts are taken only
     # when the current distances decide the constraint for every consistent valuation; otherwise a fresh variable is created, bound
     # to the theory, and registered with exactly this constraint (the meaning of that literal is then enforced by propagate: C10)
@@ -196,7 +198,8 @@ static inline _Bool spd_registered(struct map_pair_U_U_vec_idl_distancep before,
                                     'smt::idl_theory::idl_distance': ['b', 'from', 'to', 'dist'], 'smt::rational': ['num', 'den'], 'smt::lin': ['vars', 'known_term']},
                    timeout=3000, mem_gb=24, mem_est=4, force_types=['std::vector<std::vector<long>>'],
                    bounded='%d time points, |dist| <= 64, <= 1 pair with one registered constraint before the call' % d['XT_NTP']))
-    out.extend(rdl_jobs(tier))
+    if tier == 'thorough':   # rdl.bounds alone needs 10 to 20 minutes: too long for the check meant to run on every change
+        out.extend(rdl_jobs(tier))
     return out
 
 
